@@ -155,7 +155,8 @@ def list_structures(draw, member=None, malformed=True):
     """(kind, triples): a list attached to urn:s via urn:list, well-formed or one of the malformed shapes"""
     member = member or st.one_of(gt.iris(rich=False), gt.literals(xml_safe=True), gt.falsy_literals())
     ms = draw(st.lists(member, max_size=4))
-    kinds = ["ok", "ok", "nested", "shared-tail", "unattached", "bnode-members", "bnode-members", "bnode-members", "bnode-members"]
+    kinds = ["ok", "ok", "nested", "shared-tail", "unattached", "bnode-members", "bnode-members", "bnode-members", "bnode-members",
+             "owner-in-cycle", "owner-in-cycle"]
     if malformed:
         kinds += ["two-first", "no-rest", "extra-prop", "cyclic", "cyclic-noentry", "nil-props", "iri-cell", "no-first"]
     kind = draw(st.sampled_from(kinds))
@@ -170,6 +171,17 @@ def list_structures(draw, member=None, malformed=True):
         ih, it = rdf_list(draw(st.lists(member, max_size=2)), pre="i")
         h2, t2 = rdf_list(ms + [ih], pre="l")
         triples = t2 + it + [[["u", "urn:s"], ["u", "urn:list"], h2]]
+    elif kind == "owner-in-cycle":
+        # the list hangs off a blank node that is only reachable through a cycle of blank nodes, and the labels of the cells are
+        # drawn: whichever order a serializer takes the subjects in, a cell may come before the node that owns the list
+        labels = draw(st.permutations(["a", "k", "o", "z"]))
+        ms2 = ms[:3] or [["l", "1", None, None]]
+        cells = [["b", labels[i]] for i in range(len(ms2))]
+        owner, other = ["b", "m"], ["b", "n"]
+        triples = [[owner, ["u", "urn:next"], other], [other, ["u", "urn:next"], owner], [owner, ["u", "urn:list"], cells[0]]]
+        for i, m in enumerate(ms2):
+            triples.append([cells[i], FIRST, m])
+            triples.append([cells[i], REST, cells[i + 1] if i + 1 < len(ms2) else NIL])
     elif kind == "bnode-members":
         # members that are blank nodes with properties of their own, referenced from elsewhere too; the list may hang off one of them
         bm = [B(i, "m") for i in range(3)]
@@ -212,7 +224,8 @@ def list_structures(draw, member=None, malformed=True):
             triples = [x for x in triples if not (x[0] == last and x[1] == REST) and x != attach]
             triples.append([last, REST, B(0, "l")])
         elif kind == "nil-props":
-            triples.append([NIL, ["u", "urn:note"], ["l", "n", None, None]])
+            # rdf:nil with statements of its own, now and then one that makes it look like a cell
+            triples.append([NIL, draw(st.sampled_from([["u", "urn:note"], ["u", "urn:note"], FIRST])), ["l", "n", None, None]])
         elif kind == "iri-cell":
             iri = ["u", "urn:cell"]
             triples = [[iri if y == cell else y for y in x] for x in triples]
